@@ -190,7 +190,7 @@ func EncodeUDP(p []byte, srcPort uint16, dstPort uint16) UDP {
 func (p UDP) SetPayload(b []byte) UDP {
 	binary.BigEndian.PutUint16(p[4:6], UDPHeaderLen+uint16(len(b)))
 	binary.BigEndian.PutUint16(p[6:8], 0) // no checksum
-	return p[:len(p)+len(b)]
+	return p[:UDPHeaderLen+len(b)]
 }
 
 func (p UDP) AppendPayload(b []byte) (UDP, error) {
